@@ -151,6 +151,22 @@ static void build_catalogue() {
                     }
                 }
             }
+    // slice = slice with every stride pair (also both negative), other array and same array, equal and unequal counts
+    for (int n : {2, 5, 8})
+        for (int s1 : {1, 2, -1, -2})
+            for (int s2 : {1, 2, -1, -2})
+                for (int m : {n - 1, n, n + 1}) {
+                    int a1 = s1 > 0 ? 0 : n - 1, b1 = s1 > 0 ? n : 0, a2 = s2 > 0 ? 0 : m - 1, b2 = s2 > 0 ? m : 0;
+                    if (m < 2) continue;
+                    std::string s = fmt("n=%d dst(%d,%d,%d) m=%d src(%d,%d,%d)", n, a1, b1, s1, m, a2, b2, s2);
+                    ADD("slice = slice(strided, other array)", s, arr_real x = R(n); arr_real y = R(m, 1); x.slice(a1, b1, s1) = y.slice(a2, b2, s2); keep(x));
+                    ADD("cmplx slice = slice(strided, other array)", s, arr_cmplx x = X(n); arr_cmplx y = X(m, 1); x.slice(a1, b1, s1) = y.slice(a2, b2, s2); keep(x));
+                    if (m == n) ADD("slice = slice(strided, same array)", s, arr_real x = R(n); x.slice(a1, b1, s1) = x.slice(a2, b2, s2); keep(x));
+                    if (m == n && n >= 3) ADD("slice = slice(shifted, same array)", s, arr_real x = R(n); if (s1 == s2 && std::abs(s1) == 1) {
+                        if (s1 > 0) x.slice(0, n - 1, 1) = x.slice(1, n, 1);
+                        else x.slice(n - 1, 0, -1) = x.slice(n - 2, -n - 0 + 0 == 0 ? 0 : 0, -1);
+                    } keep(x));
+                }
     for (int n : {0, 1, 3})
         for (int i1 = -n - 2; i1 <= n + 2; ++i1)
             for (int i2 = -n - 2; i2 <= n + 2; ++i2)
